@@ -34,8 +34,9 @@ RULE = ("seeded random coolers (1-5 chromosomes from a pool of names incl. digit
 TRUSTED = ["h5py raw reads are the observation channel for dataset contents and enum headers",
            "pandas Index.rename(dict) is modelled as simultaneous substitution"]
 ASSUMPTIONS = ["renaming maps whose result has no duplicate names (claimed domain, DESIGN section 8)", "ASCII chromosome names"]
-RESIDUE = ["the integer chromosome encoding is produced by rewriting bins/chrom with raw h5py (the enum-header overflow that makes cooler "
-           "choose it needs tens of thousands of scaffolds; exercised in the thorough tier through the API)",
+RESIDUE = ["the integer chromosome encoding is produced by rewriting bins/chrom with raw h5py in the small cases; the enum-header overflow that makes "
+           "cooler itself choose it (at creation or in _rename_chroms) is reached through the API by the size sweep (2500 contigs, oracle only: HDF5's "
+           "header-size limit is not part of the store model)",
            "HDF5 semantics are modelled by the object store"]
 
 POOL = ["chr1", "chr2", "chr10", "chrX", "chrM", "1", "2", "10", "X", "MT", "a", "b", "scaffold_12", "chr1_random", "c", "II", "chrUn_gl000220"]
@@ -187,6 +188,11 @@ def observe(c, names_now):
            "chromsizes": rd(lambda: [[str(k), int(v)] for k, v in c.chromsizes.items()]),
            "labels": t["labels"], "starts": t["starts"], "ends": t["ends"],
            "extent": {}, "matrix": {}, "binsfetch": {}}
+
+    def joined():
+        j = c.pixels(join=True)[:]
+        return [[str(a), str(b_)] for a, b_ in zip(j["chrom1"], j["chrom2"])]
+    obs["join"] = rd(joined)
     for nm in names_now:
         obs["extent"][nm] = rd(lambda: [int(x) for x in c.extent(nm)])
         obs["matrix"][nm] = rd(lambda: [[int(x) for x in row] for row in c.matrix(balance=False).fetch(nm)])
@@ -207,7 +213,8 @@ def run_impl(d, k, c, maps, objs=None):
     objs = list(objs) if objs else [0] * len(maps)
     clrs = [cooler.Cooler(uri) for _ in range(max(objs + [0]) + 1)]
     clr = clrs[objs[-1]] if objs else clrs[0]
-    pre = observe(clrs[0], c["names"])
+    sample = c.get("sample") or list(range(len(c["names"])))
+    pre = observe(clrs[0], [c["names"][i] for i in sample])
     outcome = "Ok"
     after_call = []
     for m, oi in zip(maps, objs):
@@ -220,16 +227,17 @@ def run_impl(d, k, c, maps, objs=None):
     names_now = c["names"]
     for m in maps:
         names_now = apply_map(names_now, m)
-    same = observe(clr, names_now) if outcome == "Ok" else None
+    q_names = [names_now[i] for i in sample]
+    same = observe(clr, q_names) if outcome == "Ok" else None
     reopened = None
     if outcome == "Ok":
         o2, c2 = G.guarded(cooler.Cooler, uri)
         if o2 == "Ok":
-            reopened = observe(c2, names_now)
+            reopened = observe(c2, q_names)
         else:
             outcome = "reopen:" + o2
     after_tables, after_attrs = raw_tables(fn, c["root"])
-    o3, dump = G.guarded(lambda: G.canon_dump(G.raw_dump_file(fn, 5)))
+    o3, dump = G.guarded(lambda: None if c.get("big") else G.canon_dump(G.raw_dump_file(fn, 5)))
     if o3 != "Ok":
         dump = "unreadable:" + o3
     return {"outcome": outcome, "pre": pre, "same": same, "reopened": reopened, "before": (before_tables, before_attrs),
@@ -247,6 +255,8 @@ def dense_block(c, lo, hi):
     return M
 
 
+# (D31, fixed: pixels(join=True) on integer-encoded bins/chrom gave integer ids; the int-encoded corpus cases and the
+#  enum->int size sweep keep it as a hard observable)
 def oracle(c, maps, r):
     bad = []
     if r["outcome"] != "Ok":
@@ -271,7 +281,10 @@ def oracle(c, maps, r):
             bad.append({"what": f"bin labels ({tag} object)", "got": o["labels"][:12] if isinstance(o["labels"], list) else o["labels"]})
         if o["starts"] != [b[1] for b in c["bins"]] or o["ends"] != [b[2] for b in c["bins"]]:
             bad.append({"what": f"bin coordinates changed ({tag} object)"})
-        for nm in exp_names:
+        exp_join = [[new_of[lab_old[i]], new_of[lab_old[j]]] for i, j, _ in c["pixels"]]
+        if o["join"] != exp_join:
+            bad.append({"what": f"chromosome labels of pixels(join=True) ({tag} object)", "got": o["join"][:6], "expected": exp_join[:6]})
+        for nm in [exp_names[i] for i in (c.get("sample") or range(len(exp_names)))]:
             old = old_of[nm]
             rows = [i for i, b in enumerate(c["bins"]) if b[0] == old]
             lo, hi = rows[0], rows[-1] + 1
@@ -334,6 +347,66 @@ def model_expr(c, maps, before):
             f"| _ => None end")
 
 
+def big_case(n, len0, kind, rng):
+    """n contigs (one or two bins each) with names of length len0; the renaming chain realises one encoding
+    transition: enum->enum (few short renames), enum->int (all names become long: the enum header no longer fits
+    in the HDF5 object header), int->int (long names from the start), enum->int->int"""
+    def nm(i, L, tag):
+        base = f"{tag}{i:05d}"
+        return base + "_" * max(0, L - len(base))
+    names = [nm(i, len0, "c") for i in range(n)]
+    rows = []
+    for i, x in enumerate(names):
+        rows.append((x, 0, 7))
+        if i % 997 == 3:
+            rows.append((x, 7, 9))
+    nb = len(rows)
+    pix = sorted({(min(a, b), max(a, b)): v for a, b, v in
+                  [(0, 1, 2), (1, nb - 1, 3), (5, 7, 4), (nb - 2, nb - 1, 5), (3, 4, 6), (nb // 2, nb // 2, 7)]}.items())
+    pix = [(k[0], k[1], v) for k, v in pix]
+    lengths = [max(r[2] for r in rows if r[0] == x) for x in names] if n <= 50 else None
+    if lengths is None:
+        lengths = [9 if i % 997 == 3 else 7 for i in range(n)]
+    idx = sorted(set([0, 1, 3, n // 2, n - 2, n - 1] + [rng.randrange(n) for _ in range(3)]))
+    if kind == "enum->enum":
+        maps = [{names[i]: nm(i, len0, "r") for i in idx[:4]}]
+    elif kind == "enum->int":
+        maps = [{x: nm(i, 31, "L") for i, x in enumerate(names)}]
+    elif kind == "int->int":
+        maps = [{names[i]: nm(i, len0 + 3, "q") for i in idx}, {names[1]: "tmp", names[0]: names[1]}]
+        maps[1] = {k: v for k, v in maps[1].items() if k not in maps[0]} or {"zz": "yy"}
+    else:
+        maps = [{x: nm(i, 31, "L") for i, x in enumerate(names)}, {nm(i, 31, "L"): nm(i, 6, "s") for i in idx}]
+    return {"names": names, "lengths": lengths, "bins": rows, "pixels": pix, "root": "/", "enc": "enum",
+            "big": kind, "sample": idx}, maps
+
+
+def run_big(ctx, d, k0):
+    """size sweep over contig count x name length for the three encoding transitions (oracle only: the
+    header-size limit that triggers the integer fallback is HDF5's, not part of the store model)"""
+    rng = ctx.rng
+    grid = [(2500, 5, "enum->enum"), (2500, 5, "enum->int"), (2500, 31, "int->int"), (2500, 5, "enum->int->int")]
+    if ctx.tier == "thorough":
+        grid += [(n, L, kind) for n in (500, 1500, 4000) for L in (5, 16) for kind in ("enum->int", "enum->enum")]
+        grid += [(n, L, "int->int") for n in (2200, 4000) for L in (31, 60)]
+    seen = {}
+    for k, (n, L, kind) in enumerate(grid):
+        c, maps = big_case(n, L, kind, rng)
+        r = run_impl(d, k0 + k, c, maps)
+        try:
+            os.remove(os.path.join(d, f"c{k0 + k}.cool"))
+        except OSError:
+            pass
+        enc0 = "enum" if r["before"][0]["bins"]["chrom"][0] == "E" else "int"
+        enc1 = "enum" if r["after"][0]["bins"]["chrom"][0] == "E" else "int"
+        seen[f"{n}x{L}:{kind}"] = f"{enc0}->{enc1}"
+        case = {"big": {"contigs": n, "name_length": L, "transition": kind}, "maps_sizes": [len(m) for m in maps]}
+        ctx.case(case, nontrivial=True, kind=f"big:{enc0}->{enc1}")
+        for b in oracle(c, maps, r):
+            ctx.fail(case, b, b.pop("sig", None))
+    ctx.extra["big_transitions_observed"] = seen
+
+
 def run(ctx):
     import warnings
     warnings.filterwarnings("ignore")
@@ -370,7 +443,7 @@ def run(ctx):
         changed = r["names_now"] != c["names"]
         ctx.case(case, nontrivial=changed, kind=f"{kind}:{c['enc']}:{len(maps)}")
         for b in oracle(c, maps, r):
-            ctx.fail(case, b, None)
+            ctx.fail(case, b, b.pop("sig", None))
         if v is None:
             ctx.disagree("model could not rename", case, r["outcome"], None)
             continue
@@ -386,6 +459,7 @@ def run(ctx):
                     [list(e[1]) if e is not None else None for e in extents])
         ctx.compare("raw tree after renaming", case, r["dump"], G.canon_dump(G.model_dump(dump)))
         ctx.compare("same object vs reopened", case, r["same"], r["reopened"])
+    run_big(ctx, d, len(cases))
     if thorough:
         big_enum_overflow(ctx)
 
@@ -416,7 +490,17 @@ def replay(ctx, case):
     import warnings
     warnings.filterwarnings("ignore")
     if "big" in case:
-        return True
+        import random
+        b = case["big"]
+        if not isinstance(b, dict):
+            return True
+        c, maps = big_case(b["contigs"], b["name_length"], b["transition"], random.Random(0))
+        d = str(ctx.tmp / "replay")
+        os.makedirs(d, exist_ok=True)
+        bad = oracle(c, maps, run_impl(d, 0, c, maps))
+        for x in bad:
+            print("  ", str(x)[:300])
+        return not [x for x in bad if x.get("sig") is None]
     c = dict(case["cooler"])
     c["bins"] = [tuple(b) for b in c["bins"]]
     c["pixels"] = [tuple(p) for p in c["pixels"]]
